@@ -32,7 +32,7 @@ def cases(tier, seed):
     th = tier == "thorough"
     rng = random.Random(seed * 86028121 + 16)
     out = []
-    for n in range(1, (40 if th else 22)):
+    for n in range(1, (40 if th else 28)):
         for s in range(1, min(n + 2, 9 if th else 7)):
             out.append({"kind": "table", "n": n, "s": s})
     big = [(60, 6), (120, 9), (200, 4)] + ([(400, 7), (600, 5), (300, 12)]
@@ -42,12 +42,12 @@ def cases(tier, seed):
     for _ in range(40 if th else 6):
         out.append({"kind": "table", "n": rng.randint(20, 260 if th else 110),
                     "s": rng.randint(1, 12)})
-    for n in range(1, (70 if th else 30)):
+    for n in range(1, (70 if th else 44)):
         for s in range(1, (9 if th else 6)):
             out.append({"kind": "stream", "n": n, "s": s,
                         "storage": "RAM" if (n + s) % 2 else "DISK"})
     out.append({"kind": "stream", "n": 1, "s": 0, "storage": "DISK"})
-    for _ in range(300 if th else 16):
+    for _ in range(300 if th else 30):
         n = int(2 + rng.random() ** 2 * ((500 if th else 160) - 2))
         out.append({"kind": "stream", "n": n,
                     "s": rng.choice([1, 2, 3, 5, 8, rng.randint(1, 20)]),
